@@ -176,7 +176,12 @@ def observe_C03(L, replay):
     return _safe(go)
 
 
-OBSERVERS = {"C03": observe_C03, "C04": observe_C04, "C12": observe_C12, "C17": observe_C17, "C18": observe_C18}
+def observe_C11(L, replay):
+    schema = schema_for(L, replay)
+    return _safe(lambda: run_transform_op(L, schema, replay))
+
+
+OBSERVERS = {"C03": observe_C03, "C04": observe_C04, "C11": observe_C11, "C12": observe_C12, "C17": observe_C17, "C18": observe_C18}
 
 
 def same_as_reference(prop, replay):
